@@ -13,6 +13,7 @@ T  every cell (quick: seeded subset; thorough: all) is executed on real flox on
 """
 from __future__ import annotations
 
+import json
 import warnings
 
 import numpy as np
@@ -196,9 +197,16 @@ def run(ctx):
     sp = gen.Space("cells", {"func": list(FUNCS), "engine": [None, "numpy", "flox", "numbagg", "numba"], "reindex": [None, True, False], "arrdask": [True, False],
                              "bydask": [False, True], "expected": ["none", "present", "absent", "present", "absent", "range"], "dtypearg": [False, True], "layout": list(LAYOUTS),
                              "dtype": ["f8", "i8"], "shape": ["1d", "2dbatch", "2dby"], "axis_i": [0, 1], "rowch": ["split", "whole"]}, build)
-    budget = 5000 if ctx.tier == "quick" else 120000
+    budget = 4000 if ctx.tier == "quick" else 120000
     cases = sp.sample(ctx.rng, budget)
-    ctx.cov["space"] = {"cells": sp.size, "visited": len(cases)}
+    # an exhaustive core that does not depend on the sample: one reduction per class, default engine / reindex / dtype, a
+    # chunked array with in-memory labels, every layout x label dimensionality x axis subset x row chunking x expected_groups
+    core = gen.Space("core", {"func": ["sum", "nanmax", "argmax", "nanfirst", "first", "nanquantile"], "engine": [None], "reindex": [None], "arrdask": [True],
+                              "bydask": [False], "expected": ["none", "present", "absent"], "dtypearg": [False], "layout": list(LAYOUTS), "dtype": ["f8"],
+                              "shape": ["1d", "2dbatch", "2dby"], "axis_i": [0, 1], "rowch": ["split", "whole"]}, build)
+    seen_cells = {json.dumps(c, sort_keys=True) for c in cases}
+    cases += [c for c in core.all() if json.dumps(c, sort_keys=True) not in seen_cells]
+    ctx.cov["space"] = {"cells": sp.size, "visited": len(cases), "exhaustive_core": core.size}
     recs = pmap("harness.drivers.c19", "run_plan_case", cases)
     errs = harness_errors(recs)
     if errs:
